@@ -96,7 +96,11 @@ def handle3 (op : String) (a obs : List String) : Option Verdict :=
     some (["chain=true", "key=true", "single=true"],
       check [("no_trap", !isTrap obs), ("store_then_load_is_identity", obs == ["chain=true", "key=true", "single=true"])])
   | "pem.bad" =>
-    some (obs, check [("no_trap", !isTrap obs)])
+    -- PEM/DER parsing is external (pem, x509-parser): the observation is judged by the property only
+    some (obs, check [("no_trap", !isTrap obs),
+      ("single_certificate_loader_accepts_only_what_the_chain_loader_accepts",
+        get obs 0 != "ok" || ((get obs 1).startsWith "ok:" && get obs 1 != "ok:0")),
+      ("private_key_loader_never_accepts_a_certificate_file", !(get obs 0 == "ok" && get obs 2 == "ok"))])
   | _ => none
 
 end Ops
